@@ -44,6 +44,9 @@ def run(ck: Checker, prog: Program, tier: str):
     ck.guard(_r3, ck, prog)
     ck.guard(_r4, ck, prog)
     ck.guard(_members_private, ck, prog)
+    from . import c06
+    with ck.borrow(c06, "C08.R3+"):
+        ck.guard(c06._r6_outer, ck, prog, prog.func(c06.INNER), prog.func(c06.OUTER))
 
 
 def _ex(prog, f, cls, src, self_name="self"):
